@@ -187,8 +187,9 @@ async fn corpus(sink: &mut Sink) -> Result<(), String> {
         ("contains(s, 'le p')", Some("ngram_no_trigram_query")),
         ("y >= 1 AND y < 7", None),
         ("y > 1 AND y <= 5", None),
-        ("y <= 5 AND y > 1", Some("range_bounds_swapped")),
-        ("y < 7 AND y >= 5", Some("range_bounds_swapped")),
+        // repaired by c446062 (maybe_range inclusivity): strict
+        ("y <= 5 AND y > 1", None),
+        ("y < 7 AND y >= 5", None),
     ] {
         let a = scan_ids(&ds, p, true).await;
         let b = scan_ids(&ds, p, false).await;
